@@ -2,18 +2,18 @@
 import hashlib
 import re
 
-from . import ddgen
+from . import ddgen, mgrgen
 from . import shardgen as sg
 from .base import BaseProp
 
 
 class Prop(BaseProp):
     id = "C05"
-    groups = ["HashConsts", "ShardLayout", "ShardFacts", "DedupFacts"]
+    groups = ["HashConsts", "ShardLayout", "ShardFacts", "DedupFacts", "ManagerFacts"]
     prop_file = "Props/C05.v"
     trusted_base = [
         "HMAC = keyed BLAKE3 (Gallina implementation tied to the blake3 crate by the C06 correspondence)",
-        "ShardFileManager (collections, mtime ordering, u16 narrowing) is covered by the direct oracle on real histories, and by the theorem that every answer it can return comes from chunk_hash_dedup_query_direct, which is truthful for any hint",
+        "ShardFileManager: Model/Manager.v (collections, capped index with u16 narrowing, in-memory shard, flushes) is hand-written, tied to the code by stream mgr (answer by answer) and the ManagerFacts pins; C05_manager_truthful is about that model.  mtime ordering within one register_shards call, re-open and consolidation are covered by the direct oracle on real histories (stream c05m)",
     ]
     assumptions = [
         'local-lookup theorem: StoreOk key hypothesis and the C01 invariant; on-disk end-to-end theorem: well-formed records, byte-valued chunk hashes, shard below 4 GiB, 64-bit totals',
@@ -24,6 +24,7 @@ class Prop(BaseProp):
     rule = ("stream c05: one shard (duplicate chunk hashes within/across xorbs, engineered groups sharing the 64-bit prefix, optional keyed re-export) + query sequences "
             "(present, absent, partial, running past a xorb end, starting mid-xorb) through the in-memory index, the on-disk shard and the keyed shard; "
             "stream c05m: histories of add/flush/keyed-export/re-open/consolidate against a real ShardFileManager with queries in between (oracle only); "
+            "stream mgr: register / add / flush / query scripts against a real ShardFileManager compared with Model/Manager.v, every answer judged truthful against the blocks the manager was told about; "
             "stream dd: the deduper's own lookup against the pending xorb (self-references): scripted files with internal repeats across xorb cuts, every "
             "segment compared with the model and resolved against the xorb it names (chunk identities and byte counts); "
             "non-trivial = at least one query answered with a hit; distinct by sha256 of the case text")
@@ -161,10 +162,12 @@ class Prop(BaseProp):
         for k, cfg in enumerate(ddgen.CONFIGS):
             dcases = [{"id": "l%d_%d" % (k, i), "text": ddgen.gen_case(rng, cfg, big), "meta": {"cfg": k}} for i in range(6 if not big else 30)]
             out.append({"name": "dd", "cases": dcases, "env": ddgen.env_of(cfg)})
+        # the manager's routing (index of registered files, in-memory shard, flushes) against its model
+        out += mgrgen.streams(rng, tier)
         return out
 
     def compare(self, stream, case, io, mo):
-        if stream == "dd":
+        if stream in ("dd", "mgr"):
             return BaseProp.compare(self, stream, case, io, mo)
         if stream != "c05":
             return None
@@ -189,6 +192,8 @@ class Prop(BaseProp):
         return None
 
     def nontrivial(self, stream, case, io):
+        if stream == "mgr":
+            return mgrgen.nontrivial(case, io)
         if stream == "dd":
             return hashlib.sha256(case["text"].encode()).hexdigest() if case["text"].count(":") >= 5 else None
         if any(" n=" in o or o.endswith(" hit") for o in io):
@@ -196,6 +201,8 @@ class Prop(BaseProp):
         return None
 
     def count(self, counters, stream, case, io):
+        if stream == "mgr":
+            return mgrgen.count(counters, case, io)
         if stream == "dd":
             counters["local_lookup_files"] = counters.get("local_lookup_files", 0) + sum(1 for o in io if o.startswith("F") and " iref=[]" not in o and "iref=" in o)
             return
@@ -215,4 +222,4 @@ class Prop(BaseProp):
                 counters[k] = counters.get(k, 0) + 1
 
     def selfcheck(self, counters, tier):
-        return ["counter %s is zero" % k for k in ["mem_hits", "disk_hits", "keyed_hits", "manager_hits", "misses", "local_lookup_files"] if counters.get(k, 0) == 0]
+        return ["counter %s is zero" % k for k in ["mem_hits", "disk_hits", "keyed_hits", "manager_hits", "misses", "local_lookup_files"] + mgrgen.SELFCHECK if counters.get(k, 0) == 0]
